@@ -73,8 +73,15 @@ def rule_buffers(fx, rep):
         clears = [(bi, t) for bi, t, k in uses if (callee(t) or {}).get('name') in ('truncate', 'clear') and k == 0
                   and ((callee(t)['name'] == 'clear') or (r.operand_int(t['args'][1]) == 0))]
         ok = len(clears) >= 1 and all(b.dominates(clears[0][0], bi) for bi, t, k in uses)
-        rep.check(ok, 'TS', '%s:buffer-cleared-first' % fn, 'the output buffer is emptied before any other use (reuse == fresh context)',
-                  'the buffer parameter is used before / without being emptied: a reused wNAF context keeps stale entries', fx.fn(fn)['span'], construct=fn)
+        rets = [rb for rb in b.return_blocks() if rb in b.reachable()]
+        skip = [rb for rb in rets if not (clears and b.dominates(clears[0][0], rb))]
+        why = 'the buffer parameter is used before / without being emptied: a reused wNAF context keeps stale entries'
+        if ok and skip:
+            ok = False
+            why = 'a return (%s) is reachable without emptying the buffer: on that path a reused wNAF context keeps the previous call\'s entries' % ', '.join(
+                str(b.blocks[rb]['term'].get('span')) for rb in skip)
+        rep.check(ok, 'TS', '%s:buffer-cleared-first' % fn, 'the output buffer is emptied before any other use and on every path to a return (reuse == fresh context)',
+                  why, fx.fn(fn)['span'], construct=fn)
     # wnaf_form: the scalar is updated only through full-width repr operations
     b = fx.body(W.get('form'))
     if b is not None:
